@@ -301,12 +301,24 @@ def replay(ctx, path):
     be.close()
     ctx.known = []
     findings, drift, clean = T.validate(ctx, [(T.to_json(1, rec, names, values, objs), rec)], "replay")
+    want = obj.get("signature")
+    seen, hit = set(), False
     for f in findings:
-        print(f"FAILED CLAUSE {f.sig}\n   {f.what}")
-    for dmsg in drift:
+        if f.sig in seen:
+            continue
+        seen.add(f.sig)
+        mark = "  <== the recorded violation" if f.sig == want else ""
+        hit = hit or f.sig == want
+        print(f"FAILED CLAUSE {f.sig}{mark}\n   {f.what}")
+    for dmsg in drift[:5]:
         print("placement differs (shape only):", dmsg)
-    print("replay verdict:", "VIOLATION reproduced" if findings else "no property clause failed")
-    return 1 if findings else 0
+    if hit:
+        print("replay verdict: VIOLATION reproduced")
+    elif findings:
+        print("replay verdict: the recorded signature did not reproduce; other clauses failed (listed above; they may be known findings)")
+    else:
+        print("replay verdict: no property clause failed")
+    return 1 if hit else 0
 
 
 def _fmt(e):
